@@ -301,6 +301,10 @@ class BeltStore(Store):
 
             # 8) Trigger any other pending reservations
             self._trigger_reserve_get(None)
+            # 9) the released item waits at the exit again: a non-accumulating belt has to stop, so let the
+            #    conveyor re-evaluate whether it is stalled
+            if not self.accumulation_mode_indicator and not self.ready_item_event.triggered:
+                self.ready_item_event.succeed()
             return True
 
         # No such reservation
